@@ -1,4 +1,5 @@
 import CV.Proofs.RangeDecTotal
+import CV.Proofs.RangeTableModel
 /-!
 # C02 — Range coder round trip (component `range`)
 
@@ -43,6 +44,34 @@ theorem C02_range_roundtrip {Sym : Type} {c : Cfg} (hc : RValid c) (msg : List (
       (msg = [] → ws = []) :=
   roundtrip hc msg hv
 
+/-- the round trip for exactly the kind of input the correspondence runs feed to the real
+    coders: per symbol a probability type `B`, a precision `P`, a strictly increasing table
+    `cdf` from `0` to `2^P` (checked executably by `strictCdfB`) and a symbol of the table -/
+theorem C02_range_roundtrip_tables {c : Cfg} (hc : RValid c)
+    (tbl : List (Nat × Nat × List Nat × Nat))
+    (hv : ∀ t ∈ tbl, RValid (cfgAt c t.1 t.2.1) ∧ strictCdfB t.2.1 t.2.2.1 = true ∧
+      t.2.2.2 + 1 < t.2.2.1.length) :
+    ∃ e ws d0 d,
+      encodeMsg c (Encoder.empty c)
+        (tbl.map (fun t => { B := t.1, P := t.2.1, model := tableModel t.2.2.1, sym := t.2.2.2 }))
+        = .ok e ∧
+      intoCompressed c e = .ok ws ∧ Decoder.fromCompressed c ws = .ok d0 ∧
+      decodeMsg c d0
+        (tbl.map (fun t => { B := t.1, P := t.2.1, model := tableModel t.2.2.1, sym := t.2.2.2 }))
+        = .ok (tbl.map (·.2.2.2), d) ∧
+      d.maybeExhausted c = .ok true := by
+  have hvalid : ∀ x ∈ tbl.map (fun t =>
+      ({ B := t.1, P := t.2.1, model := tableModel t.2.2.1, sym := t.2.2.2 } : MStep Nat)),
+      x.Valid c := by
+    intro x hx
+    obtain ⟨t, ht, rfl⟩ := List.mem_map.mp hx
+    obtain ⟨h1, h2, h3⟩ := hv t ht
+    exact MStep.valid_of_table h1 (strictCdf_of_check h2) h3
+  obtain ⟨e, ws, d0, d, h1, h2, h3, h4, h5, _⟩ := roundtrip hc _ hvalid
+  refine ⟨e, ws, d0, d, h1, h2, h3, ?_, h5⟩
+  rw [h4, List.map_map]
+  rfl
+
 /-- the sealed words lie in the final interval of the reference coder, within `2^(S-W) − 1` of
     its lower end (`seal_point`) -/
 theorem C02_range_seal_point {c : Cfg} (hc : RValid c) {st : RangeSpec.St} (hI : SpecInv c st) :
@@ -66,4 +95,5 @@ end CV.Range
 #print axioms CV.Range.C02_range_inv_new
 #print axioms CV.Range.C02_range_encode_refines
 #print axioms CV.Range.C02_range_roundtrip
+#print axioms CV.Range.C02_range_roundtrip_tables
 #print axioms CV.Range.C02_range_seal_point
